@@ -28,6 +28,7 @@ type c03flow struct {
 	wild    bool
 	methods []string
 	header  string // required value of x-h ("" = none)
+	header2 string // a second listed value for the same key: alternatives
 	query   string // required value of q ("" = none)
 	status  []int
 }
@@ -109,7 +110,7 @@ func (f c03flow) accepts(t c03txn, request bool) (ok bool, und bool, reason stri
 		}
 	}
 	if request {
-		if f.header != "" && !strings.EqualFold(f.header, t.header) {
+		if f.header != "" && !strings.EqualFold(f.header, t.header) && !(f.header2 != "" && strings.EqualFold(f.header2, t.header)) {
 			return false, false, "header"
 		}
 		if f.query != "" && f.query != t.query {
@@ -171,6 +172,9 @@ func (f c03flow) yaml() string {
 	}
 	if f.header != "" {
 		d.Headers = [][2]string{{"x-h", f.header}}
+		if f.header2 != "" {
+			d.Headers = append(d.Headers, [2]string{"x-h", f.header2})
+		}
 	}
 	if f.query != "" {
 		d.Query = [][2]string{{"q", f.query}}
@@ -211,6 +215,9 @@ func runC03(s *kernel.Sim) {
 		}
 		if tp.Chance(1, 4) {
 			f.header = []string{"v1", "v2"}[tp.Choose(2)]
+			if tp.Chance(1, 3) { // the same key listed twice: either value qualifies
+				f.header2 = []string{"v3", "v1", "v2"}[tp.Choose(3)]
+			}
 		}
 		if tp.Chance(1, 5) {
 			f.query = []string{"1", "2"}[tp.Choose(2)]
@@ -227,7 +234,7 @@ func runC03(s *kernel.Sim) {
 	files := map[string]string{}
 	for _, f := range flows {
 		files["flows/"+f.name+".yaml"] = f.yaml()
-		desc = append(desc, fmt.Sprintf("%s:%s m=%v h=%q q=%q st=%v", f.name, f.url(), f.methods, f.header, f.query, f.status))
+		desc = append(desc, fmt.Sprintf("%s:%s m=%v h=%q|%q q=%q st=%v", f.name, f.url(), f.methods, f.header, f.header2, f.query, f.status))
 	}
 	s.Knobs["flows"], s.Knobs["orders"], s.Knobs["transactions"] = desc, nOrders, nTxn
 	s.MixSig(desc...)
@@ -236,7 +243,7 @@ func runC03(s *kernel.Sim) {
 	// transactions, biased towards the configured patterns
 	var txns []c03txn
 	for i := 0; i < nTxn; i++ {
-		t := c03txn{method: []string{"GET", "POST", "PUT"}[tp.Choose(3)], header: []string{"", "v1", "v2"}[tp.Choose(3)],
+		t := c03txn{method: []string{"GET", "POST", "PUT"}[tp.Choose(3)], header: []string{"", "v1", "v2", "v3"}[tp.Choose(4)],
 			query: []string{"", "1", "2"}[tp.Choose(3)], status: []int{200, 500, 404}[tp.Choose(3)]}
 		if tp.Chance(3, 4) {
 			f := flows[tp.Choose(len(flows))]
